@@ -83,6 +83,7 @@ package nfs
 // getShrink: a validated, locked, not-shrinking inode in an open transaction, or an error with nothing held.
 //@ spec (*Nfs).getShrink(nfs, fh)
 //@   props C05 C06 C03 C08 C09 C11 C01
+//@   callsite fstxn.(*FsTxn).GetInodeFh@1 requires [H1-object] arg1 == fh @C08
 //@   requires rpcPre(nfs)
 //@   allocates fstxn.FsTxn, alloctxn.AllocTxn, jrnl.Op, []uint64, map[uint64]*inode.Inode, cache.Cslot, inode.Inode, buf.Buf, marshal.Dec, marshal.Enc, cell:uint64, []uint8, addr.Addr
 //@   modifies held, lockedn, lastst, curop, freshinum, wroteinum, cphase, abits, dirtyinum, muheld, cache.Cslot.Obj, map[uint64]*inode.Inode, inode.Inode.ShrinkSize, []uint64@inode.Inode.blks, []uint64@alloctxn.AllocTxn.freeBnums, alloctxn.AllocTxn.freeBnums, buf.Buf.dirty, []uint8@buf.Buf.Data, zeroed, dshrinks
@@ -99,6 +100,8 @@ package nfs
 //@ specfunc bigMods() = true
 //@ spec (*Nfs).NFSPROC3_GETATTR(nfs, args)
 //@   props C01 C02 C03 C06 C08 C09 C10 C11 C14
+// H1 (C08): the request's handle is validated (number and generation) by the call named here, in the transaction that answers
+//@   callsite fstxn.(*FsTxn).GetInodeFh@1 requires [H1-object] arg1 == args.Object @C08
 //@   requires rpcPre(nfs)
 //@   allocates fstxn.FsTxn, alloctxn.AllocTxn, jrnl.Op, []uint64, map[uint64]*inode.Inode, cache.Cslot, inode.Inode, buf.Buf, marshal.Dec, marshal.Enc, cell:uint64, []uint8, addr.Addr, nfstypes.GETATTR3res
 //@   modifies held, lockedn, lastst, curop, freshinum, wroteinum, cphase, abits, dirtyinum, cache.Cslot.Obj, map[uint64]*inode.Inode, nfs.Nfs.stats
@@ -111,6 +114,7 @@ package nfs
 
 //@ spec (*Nfs).doRead(nfs, fh, kind, offset, count)
 //@   props C02 C08 C09 C10 C11 C06
+//@   callsite fstxn.(*FsTxn).GetInodeFh@1 requires [H1-object] arg1 == fh @C08
 //@   requires rpcPre(nfs)
 //@   requires [count32] count <= 4294967296 @C11
 //@   allocates $TXALLOC
@@ -152,6 +156,7 @@ package nfs
 // W3 (C07): COMMIT flushes the log.
 //@ spec (*Nfs).NFSPROC3_COMMIT(nfs, args)
 //@   props C01 C03 C06 C07 C08 C09 C11 C14
+//@   callsite fstxn.(*FsTxn).GetInodeFh@1 requires [H1-object] arg1 == args.File @C08
 //@   requires rpcPre(nfs)
 //@   allocates $TXALLOC, nfstypes.COMMIT3res
 //@   modifies $TXMODS
@@ -185,6 +190,7 @@ package nfs
 // Fn3 (C02), Q3 (C19): SETATTR.
 //@ spec (*Nfs).NFSPROC3_SETATTR(nfs, args)
 //@   props C01 C02 C03 C05 C06 C08 C09 C10 C11 C14 C19 C12
+//@   callsite nfs.(*Nfs).getShrink@1 requires [H1-object] arg1 == args.Object @C08
 //@   requires rpcPre(nfs)
 //@   allocates $TXALLOC, nfstypes.SETATTR3res, struct:struct{}
 //@   modifies $TXMODS, $FILEMODS, $SHRINKMODS, shrinker.ShrinkerSt.nthread
@@ -286,6 +292,7 @@ package nfs
 //@ specfunc gilParent(ins []*inode.Inode, dfh nfstypes.Nfs_fh3) = (len(ins) == 2 ==> ins[1] != nil && held[ins[1].Inum] && inodeInv(ins[1]) && ins[1].Kind == 2 && dirShape(ins[1]) && ins[1].Inum == fhIno(dfh) && ins[1].Gen == fhGen(dfh) && ins[0].Inum != ins[1].Inum) && (len(ins) == 1 ==> ins[0].Inum == fhIno(dfh) && ins[0].Gen == fhGen(dfh) && ins[0].Kind == 2)
 //@ spec (*Nfs).getInodesLocked(nfs, dfh, name)
 //@   props C02 C03 C06 C08 C09 C11
+//@   callsite fstxn.(*FsTxn).GetInodeFh@1 requires [H1-object] arg1 == dfh @C08
 //@   requires rpcPre(nfs)
 //@   allocates $TXALLOC, $DIRALLOC
 //@   modifies $TXMODS, $FILEMODS, $DIRMODS, sortperm
@@ -300,6 +307,7 @@ package nfs
 
 //@ spec (*Nfs).NFSPROC3_LOOKUP(nfs, args)
 //@   props C01 C02 C03 C06 C08 C09 C10 C11 C14
+//@   callsite nfs.(*Nfs).getInodesLocked@1 requires [H1-object] arg1 == args.What.Dir && arg2 == args.What.Name @C08 @C02
 //@   requires rpcPre(nfs)
 //@   allocates $TXALLOC, $DIRALLOC, nfstypes.LOOKUP3res
 //@   modifies $TXMODS, $FILEMODS, $DIRMODS, sortperm
@@ -345,6 +353,7 @@ package nfs
 
 //@ spec (*Nfs).NFSPROC3_READDIR(nfs, args)
 //@   props C01 C02 C03 C06 C08 C09 C10 C11 C13 C14
+//@   callsite fstxn.(*FsTxn).GetInodeFh@1 requires [H1-object] arg1 == args.Dir @C08
 //@   requires rpcPre(nfs)
 //@   allocates $TXALLOC, $DIRALLOC, nfstypes.READDIR3res, cell:*nfstypes.Entry3
 //@   modifies $TXMODS, $FILEMODS, $DIRMODS
@@ -357,6 +366,7 @@ package nfs
 
 //@ spec (*Nfs).NFSPROC3_READDIRPLUS(nfs, args)
 //@   props C01 C02 C03 C06 C08 C09 C10 C11 C13 C14
+//@   callsite fstxn.(*FsTxn).GetInodeFh@1 requires [H1-object] arg1 == args.Dir @C08
 //@   requires rpcPre(nfs)
 //@   allocates $TXALLOC, $DIRALLOC, nfstypes.READDIRPLUS3res, cell:*nfstypes.Entryplus3, fh.Fh, struct:struct{}
 //@   modifies $TXMODS, $FILEMODS, $DIRMODS
@@ -385,6 +395,7 @@ package nfs
 
 //@ spec (*Nfs).getAlloc(nfs, op, dfh, name, kind)
 //@   props C05 C06 C03 C08 C09 C11 C04
+//@   callsite fstxn.(*FsTxn).GetInodeFh@1 requires [H1-object] arg1 == dfh @C08
 //@   requires nfsInv(nfs) && txOpen(op) && noLocks() && op.Fs == nfs.fsstate && !muheld[base(nfs.shrinkst.mu)]
 //@   allocates $TXALLOC, $DIRALLOC
 //@   modifies $TXMODS, $FILEMODS, $DIRMODS, $SHRINKMODS
@@ -402,6 +413,7 @@ package nfs
 // everything happens in the one open transaction.
 //@ spec (*Nfs).doCreate(nfs, dfh, name, kind, data)
 //@   props C02 C03 C04 C05 C06 C08 C09 C10 C11
+//@   callsite nfs.(*Nfs).getAlloc@1 requires [H1-object] arg2 == dfh && arg3 == name && arg4 == kind @C08 @C02
 //@   requires rpcPre(nfs)
 // Fn2-flow (C02): a symbolic link's target is written whole, from offset 0, into the new inode
 //@   callsite inode.(*Inode).Write@1 requires [Fn2-link-target] arg0 == ip && arg2 == 0 && arg3 == len(data) && arg4 == data @C02
@@ -420,6 +432,7 @@ package nfs
 
 //@ spec (*Nfs).NFSPROC3_CREATE(nfs, args)
 //@   props C01 C02 C03 C04 C05 C06 C08 C09 C10 C11 C14
+//@   callsite nfs.(*Nfs).doCreate@1 requires [H1-object] arg1 == args.Where.Dir && arg2 == args.Where.Name && arg3 == 1 @C08 @C02
 //@   requires rpcPre(nfs)
 //@   allocates $TXALLOC, $DIRALLOC, nfstypes.CREATE3res
 //@   modifies $TXMODS, $FILEMODS, $DIRMODS, $SHRINKMODS, dnames, shrinker.ShrinkerSt.nthread
@@ -432,6 +445,7 @@ package nfs
 
 //@ spec (*Nfs).NFSPROC3_MKDIR(nfs, args)
 //@   props C01 C02 C03 C04 C05 C06 C08 C09 C10 C11 C14
+//@   callsite nfs.(*Nfs).doCreate@1 requires [H1-object] arg1 == args.Where.Dir && arg2 == args.Where.Name && arg3 == 2 @C08 @C02
 //@   requires rpcPre(nfs)
 //@   allocates $TXALLOC, $DIRALLOC, nfstypes.MKDIR3res
 //@   modifies $TXMODS, $FILEMODS, $DIRMODS, $SHRINKMODS, dnames, shrinker.ShrinkerSt.nthread
@@ -456,6 +470,7 @@ package nfs
 // Fn5/Fn6 (C02), F1/F7/F8 (C05), I3 (C04): removal.
 //@ spec (*Nfs).doRemove(nfs, dfh, name, isdir)
 //@   props C02 C03 C04 C05 C06 C08 C09 C10 C11
+//@   callsite nfs.(*Nfs).getInodesLocked@1 requires [H1-object] arg1 == dfh && arg2 == name @C08 @C02
 //@   requires rpcPre(nfs)
 //@   allocates $TXALLOC, $DIRALLOC, struct:struct{}
 //@   modifies $TXMODS, $FILEMODS, $DIRMODS, $SHRINKMODS, dnames, sortperm, shrinker.ShrinkerSt.nthread
@@ -469,6 +484,7 @@ package nfs
 
 //@ spec (*Nfs).NFSPROC3_REMOVE(nfs, args)
 //@   props C01 C02 C03 C04 C05 C06 C08 C09 C10 C11 C14
+//@   callsite nfs.(*Nfs).doRemove@1 requires [H1-object] arg1 == args.Object.Dir && arg2 == args.Object.Name && !arg3 @C08 @C02
 //@   requires rpcPre(nfs)
 //@   allocates $TXALLOC, $DIRALLOC, nfstypes.REMOVE3res, struct:struct{}
 //@   modifies $TXMODS, $FILEMODS, $DIRMODS, $SHRINKMODS, dnames, sortperm, shrinker.ShrinkerSt.nthread
@@ -479,6 +495,7 @@ package nfs
 
 //@ spec (*Nfs).NFSPROC3_RMDIR(nfs, args)
 //@   props C01 C02 C03 C04 C05 C06 C08 C09 C10 C11 C14
+//@   callsite nfs.(*Nfs).doRemove@1 requires [H1-object] arg1 == args.Object.Dir && arg2 == args.Object.Name && arg3 @C08 @C02
 //@   requires rpcPre(nfs)
 //@   allocates $TXALLOC, $DIRALLOC, nfstypes.RMDIR3res, struct:struct{}
 //@   modifies $TXMODS, $FILEMODS, $DIRMODS, $SHRINKMODS, dnames, sortperm, shrinker.ShrinkerSt.nthread
